@@ -1,33 +1,891 @@
-// temporary probe (will be replaced by the real harness)
-use indicatif::{ProgressBar, ProgressDrawTarget};
-use std::time::Duration;
-fn nthreads() -> usize { std::fs::read_dir("/proc/self/task").unwrap().count() }
+//! C08 – no deadlock; steady-tick thread lifecycle.
+//!
+//! There is no lock instrumentation in /repo; the tie to model/Locks.v has two halves:
+//!  (a) static: tools/locks_extract.py regenerates coq/gen/LockFootprints.v from the Rust source and
+//!      props/C08.v proves `Ordered` about that table;
+//!  (b) dynamic (this file): real threads call the public API on shared handles under a watchdog
+//!      (a scenario that does not finish is a deadlock candidate), the ticker-lifecycle oracle
+//!      watches the ticker thread through /proc/self/task, the screen of an InMemoryTerm and
+//!      WeakProgressBar::upgrade, and every executed scenario is replayed on the lock model built
+//!      from the GENERATED table (c08_check): the model must know every call by name, accept the
+//!      pool as well-formed and run it to completion, as the implementation did.
+use indicatif::{InMemoryTerm, MultiProgress, ProgressBar, ProgressDrawTarget, ProgressStyle};
+use std::collections::BTreeSet;
+use std::sync::mpsc;
+use std::time::{Duration, Instant};
+use verif_harness::*;
+
+const WATCHDOG: Duration = Duration::from_secs(6);
+const HOUR_MS: u64 = 3_600_000;
+
+// ------------------------------------------------------------------ thread observation
+fn tids() -> BTreeSet<u64> {
+    let mut s = BTreeSet::new();
+    if let Ok(rd) = std::fs::read_dir("/proc/self/task") {
+        for e in rd.flatten() {
+            if let Ok(t) = e.file_name().to_string_lossy().parse::<u64>() {
+                s.insert(t);
+            }
+        }
+    }
+    s
+}
+
+/// poll until `f` holds or `ms` elapsed (real time: condvar time-outs are real time)
+fn wait_until(ms: u64, mut f: impl FnMut() -> bool) -> bool {
+    let t0 = Instant::now();
+    loop {
+        if f() {
+            return true;
+        }
+        if t0.elapsed() > Duration::from_millis(ms) {
+            return false;
+        }
+        std::thread::sleep(Duration::from_micros(500));
+    }
+}
+
+/// run `f` on a helper thread; None if it does not return within the watchdog time
+fn watchdog<R: Send + 'static>(f: impl FnOnce() -> R + Send + 'static) -> Option<R> {
+    let (tx, rx) = mpsc::channel();
+    std::thread::Builder::new()
+        .name("c08-wd".into())
+        .spawn(move || {
+            let r = catch(f);
+            let _ = tx.send(r);
+        })
+        .unwrap();
+    match rx.recv_timeout(WATCHDOG) {
+        Ok(Ok(r)) => Some(r),
+        Ok(Err(_)) => None,
+        Err(_) => None,
+    }
+}
+
+// ------------------------------------------------------------------ scenarios
+#[derive(Clone, Copy, Debug, PartialEq)]
+enum Target {
+    Hidden,
+    Mem,
+    Multi,
+}
+
+#[derive(Clone, Debug)]
+enum Op {
+    Inc(usize),
+    SetPosition(usize),
+    Tick(usize),
+    Update(usize),
+    SetMessage(usize),
+    SetLength(usize),
+    Println(usize),
+    Suspend(usize),
+    Finish(usize, u8),
+    Reset(usize),
+    Enable(usize, u64),
+    Disable(usize),
+    CloneDrop(usize),
+    DropHandle(usize),
+    IsHidden(usize),
+    Position(usize),
+    ForceDraw(usize),
+    SetHidden(usize),
+    MpPrintln,
+    MpClear,
+    MpSuspend,
+    MpIsHidden,
+    MpRemove(usize),
+    MpAdd(usize),
+    MpSetMoveCursor,
+}
+
+impl Op {
+    fn bar(&self) -> Option<usize> {
+        use Op::*;
+        match self {
+            Inc(b) | SetPosition(b) | Tick(b) | Update(b) | SetMessage(b) | SetLength(b) | Println(b)
+            | Suspend(b) | Finish(b, _) | Reset(b) | Enable(b, _) | Disable(b) | CloneDrop(b)
+            | DropHandle(b) | IsHidden(b) | Position(b) | ForceDraw(b) | SetHidden(b) | MpRemove(b)
+            | MpAdd(b) => Some(*b),
+            _ => None,
+        }
+    }
+    /// names of the generated footprints this op executes, in order
+    fn calls(&self) -> Vec<&'static str> {
+        use Op::*;
+        match self {
+            Inc(_) => vec!["ProgressBar::inc"],
+            SetPosition(_) => vec!["ProgressBar::set_position"],
+            Tick(_) => vec!["ProgressBar::tick"],
+            Update(_) => vec!["ProgressBar::update"],
+            SetMessage(_) => vec!["ProgressBar::set_message"],
+            SetLength(_) => vec!["ProgressBar::set_length"],
+            Println(_) => vec!["ProgressBar::println"],
+            Suspend(_) => vec!["ProgressBar::suspend"],
+            Finish(_, 0) => vec!["ProgressBar::finish"],
+            Finish(_, 1) => vec!["ProgressBar::finish_with_message"],
+            Finish(_, 2) => vec!["ProgressBar::finish_and_clear"],
+            Finish(_, 3) => vec!["ProgressBar::abandon"],
+            Finish(_, 4) => vec!["ProgressBar::abandon_with_message"],
+            Finish(_, _) => vec!["ProgressBar::finish_using_style"],
+            Reset(_) => vec!["ProgressBar::reset"],
+            Enable(_, _) => vec!["ProgressBar::enable_steady_tick"],
+            Disable(_) => vec!["ProgressBar::disable_steady_tick"],
+            CloneDrop(_) => vec!["ProgressBar::clone", "ProgressBar::drop"],
+            DropHandle(_) => vec!["ProgressBar::drop"],
+            IsHidden(_) => vec!["ProgressBar::is_hidden"],
+            Position(_) => vec!["ProgressBar::position"],
+            ForceDraw(_) => vec!["ProgressBar::force_draw"],
+            SetHidden(_) => vec!["ProgressBar::set_draw_target"],
+            MpPrintln => vec!["MultiProgress::println"],
+            MpClear => vec!["MultiProgress::clear"],
+            MpSuspend => vec!["MultiProgress::suspend"],
+            MpIsHidden => vec!["MultiProgress::is_hidden"],
+            MpRemove(_) => vec!["MultiProgress::remove"],
+            MpAdd(_) => vec!["MultiProgress::add"],
+            MpSetMoveCursor => vec!["MultiProgress::set_move_cursor"],
+        }
+    }
+    fn text(&self) -> String {
+        format!("{self:?}")
+    }
+}
+
+#[derive(Clone, Debug)]
+struct Scenario {
+    target: Target,
+    nbars: usize,
+    /// steady tick installed by the main thread before the workers start (ms), per bar
+    initial: Vec<Option<u64>>,
+    threads: Vec<Vec<Op>>,
+}
+
+impl Scenario {
+    fn text(&self) -> String {
+        format!(
+            "target={:?} bars={} initial_ticker_ms={:?} threads=[{}]",
+            self.target,
+            self.nbars,
+            self.initial,
+            self.threads
+                .iter()
+                .map(|t| format!("[{}]", t.iter().map(|o| o.text()).collect::<Vec<_>>().join(",")))
+                .collect::<Vec<_>>()
+                .join(" | ")
+        )
+    }
+}
+
+const INTERVALS: [u64; 6] = [1, 2, 5, 50, 1000, HOUR_MS];
+
+fn gen_op(r: &mut Rng, nbars: usize, multi: bool) -> Op {
+    let b = r.below(nbars as u64) as usize;
+    let k = if multi { r.below(30) } else { r.below(23) };
+    match k {
+        0..=2 => Op::Inc(b),
+        3 => Op::SetPosition(b),
+        4..=5 => Op::Tick(b),
+        6..=8 => Op::Update(b),
+        9 => Op::SetMessage(b),
+        10 => Op::Println(b),
+        11 => Op::Suspend(b),
+        12 => Op::Finish(b, r.below(6) as u8),
+        13 => Op::Reset(b),
+        14..=16 => Op::Enable(b, *r.pick(&INTERVALS)),
+        17..=18 => Op::Disable(b),
+        19 => Op::CloneDrop(b),
+        20 => Op::DropHandle(b),
+        21 => match r.below(4) {
+            0 => Op::IsHidden(b),
+            1 => Op::Position(b),
+            2 => Op::SetLength(b),
+            _ => Op::ForceDraw(b),
+        },
+        22 => {
+            if r.chance(1, 4) {
+                Op::SetHidden(b)
+            } else {
+                Op::Inc(b)
+            }
+        }
+        23 => Op::MpPrintln,
+        24 => Op::MpClear,
+        25 => Op::MpSuspend,
+        26 => Op::MpIsHidden,
+        27 => Op::MpRemove(b),
+        28 => Op::MpAdd(b),
+        _ => Op::MpSetMoveCursor,
+    }
+}
+
+fn gen_scenario(r: &mut Rng) -> Scenario {
+    let target = match r.below(5) {
+        0 => Target::Hidden,
+        1 => Target::Mem,
+        _ => Target::Multi,
+    };
+    let nbars = r.range(1, 3) as usize;
+    let initial = (0..nbars)
+        .map(|_| if r.chance(2, 3) { Some(*r.pick(&INTERVALS)) } else { None })
+        .collect();
+    let nthreads = r.range(2, 3) as usize;
+    let threads = (0..nthreads)
+        .map(|_| {
+            let n = r.range(1, 5);
+            (0..n).map(|_| gen_op(r, nbars, target == Target::Multi)).collect()
+        })
+        .collect();
+    Scenario { target, nbars, initial, threads }
+}
+
+fn style(draws: std::sync::Arc<std::sync::atomic::AtomicU64>) -> ProgressStyle {
+    let ticks: Vec<String> = (0..60).map(|i| format!("{i:02}")).chain(["XX".to_string()]).collect();
+    let refs: Vec<&str> = ticks.iter().map(|s| s.as_str()).collect();
+    ProgressStyle::with_template("{spinner} {msg} {pos}/{len} {cb}")
+        .unwrap()
+        .tick_strings(&refs)
+        // a user callback that does not re-enter the library (the property's proviso)
+        .with_key("cb", move |_: &indicatif::ProgressState, w: &mut dyn std::fmt::Write| {
+            draws.fetch_add(1, std::sync::atomic::Ordering::SeqCst);
+            let _ = w.write_str("cb");
+        })
+}
+
+fn apply(op: &Op, bars: &mut [Option<ProgressBar>], mp: &Option<MultiProgress>) {
+    use Op::*;
+    let pb = op.bar().and_then(|b| bars[b].clone());
+    match (op, pb) {
+        (Inc(_), Some(p)) => p.inc(1),
+        (SetPosition(_), Some(p)) => p.set_position(7),
+        (Tick(_), Some(p)) => p.tick(),
+        (Update(_), Some(p)) => p.update(|s| s.set_pos(s.pos().wrapping_add(1))),
+        (SetMessage(_), Some(p)) => p.set_message("m"),
+        (SetLength(_), Some(p)) => p.set_length(50),
+        (Println(_), Some(p)) => p.println("log"),
+        (Suspend(_), Some(p)) => p.suspend(|| {
+            std::hint::black_box(1);
+        }),
+        (Finish(_, 0), Some(p)) => p.finish(),
+        (Finish(_, 1), Some(p)) => p.finish_with_message("done"),
+        (Finish(_, 2), Some(p)) => p.finish_and_clear(),
+        (Finish(_, 3), Some(p)) => p.abandon(),
+        (Finish(_, 4), Some(p)) => p.abandon_with_message("ab"),
+        (Finish(_, _), Some(p)) => p.finish_using_style(),
+        (Reset(_), Some(p)) => p.reset(),
+        (Enable(_, ms), Some(p)) => p.enable_steady_tick(Duration::from_millis(*ms)),
+        (Disable(_), Some(p)) => p.disable_steady_tick(),
+        (CloneDrop(_), Some(p)) => drop(p.clone()),
+        (DropHandle(b), Some(_)) => bars[*b] = None,
+        (IsHidden(_), Some(p)) => {
+            let _ = p.is_hidden();
+        }
+        (Position(_), Some(p)) => {
+            let _ = p.position();
+        }
+        (ForceDraw(_), Some(p)) => p.force_draw(),
+        (SetHidden(_), Some(p)) => p.set_draw_target(ProgressDrawTarget::hidden()),
+        (MpRemove(_), Some(p)) => {
+            if let Some(m) = mp {
+                m.remove(&p)
+            }
+        }
+        (MpAdd(_), Some(p)) => {
+            if let Some(m) = mp {
+                let _ = m.add(p.clone());
+            }
+        }
+        (MpPrintln, _) => {
+            if let Some(m) = mp {
+                let _ = m.println("mp log");
+            }
+        }
+        (MpClear, _) => {
+            if let Some(m) = mp {
+                let _ = m.clear();
+            }
+        }
+        (MpSuspend, _) => {
+            if let Some(m) = mp {
+                m.suspend(|| {
+                    std::hint::black_box(2);
+                })
+            }
+        }
+        (MpIsHidden, _) => {
+            if let Some(m) = mp {
+                let _ = m.is_hidden();
+            }
+        }
+        (MpSetMoveCursor, _) => {
+            if let Some(m) = mp {
+                m.set_move_cursor(false)
+            }
+        }
+        (_, None) => {} // this thread has dropped its handle of that bar
+    }
+}
+
+struct Outcome {
+    completed: bool,
+    stuck: String,
+    panics: Vec<String>,
+    leftover_threads: usize,
+}
+
+fn run_scenario(sc: &Scenario) -> Outcome {
+    let before = tids();
+    let draws = std::sync::Arc::new(std::sync::atomic::AtomicU64::new(0));
+    let term = InMemoryTerm::new(12, 60);
+    let mp = match sc.target {
+        Target::Multi => Some(MultiProgress::with_draw_target(ProgressDrawTarget::term_like(Box::new(term.clone())))),
+        _ => None,
+    };
+    let mut bars: Vec<ProgressBar> = vec![];
+    for _ in 0..sc.nbars {
+        let t = match sc.target {
+            Target::Mem => ProgressDrawTarget::term_like(Box::new(InMemoryTerm::new(4, 60))),
+            _ => ProgressDrawTarget::hidden(),
+        };
+        let pb = ProgressBar::with_draw_target(Some(100), t).with_style(style(draws.clone()));
+        let pb = match &mp {
+            Some(m) => m.add(pb),
+            None => pb,
+        };
+        bars.push(pb);
+    }
+    for (b, iv) in sc.initial.iter().enumerate() {
+        if let Some(ms) = iv {
+            bars[b].enable_steady_tick(Duration::from_millis(*ms));
+        }
+    }
+    let (tx, rx) = mpsc::channel::<(usize, Vec<String>)>();
+    for (ti, ops) in sc.threads.iter().enumerate() {
+        let ops = ops.clone();
+        let mut mine: Vec<Option<ProgressBar>> = bars.iter().map(|b| Some(b.clone())).collect();
+        let mpc = mp.clone();
+        let tx = tx.clone();
+        std::thread::Builder::new()
+            .name(format!("c08-t{ti}"))
+            .spawn(move || {
+                let mut panics = vec![];
+                for (i, op) in ops.iter().enumerate() {
+                    if let Err(e) = catch(|| apply(op, &mut mine, &mpc)) {
+                        panics.push(format!("thread {ti} op #{i} {}: {e}", op.text()));
+                    }
+                }
+                if let Err(e) = catch(move || drop(mine)) {
+                    panics.push(format!("thread {ti} dropping its handles: {e}"));
+                }
+                let _ = tx.send((ti, panics));
+            })
+            .unwrap();
+    }
+    drop(tx);
+    let deadline = Instant::now() + WATCHDOG;
+    let mut finished = vec![false; sc.threads.len()];
+    let mut panics = vec![];
+    while finished.iter().any(|f| !f) {
+        let left = deadline.saturating_duration_since(Instant::now());
+        match rx.recv_timeout(left) {
+            Ok((ti, p)) => {
+                finished[ti] = true;
+                panics.extend(p);
+            }
+            Err(_) => break,
+        }
+    }
+    let mut stuck: Vec<String> =
+        finished.iter().enumerate().filter(|(_, f)| !**f).map(|(i, _)| format!("thread {i}")).collect();
+    let mut completed = stuck.is_empty();
+    if completed {
+        // the main thread drops the last handles: joins every ticker that is still installed
+        match watchdog(move || {
+            drop(bars);
+            drop(mp);
+        }) {
+            Some(()) => {}
+            None => {
+                completed = false;
+                stuck.push("main thread dropping the last handles".into());
+            }
+        }
+    } else {
+        std::mem::forget(bars);
+        std::mem::forget(mp);
+    }
+    // every ticker thread must be gone once all handles are dropped
+    let mut leftover = 0;
+    if completed {
+        let gone = wait_until(2000, || tids().difference(&before).count() == 0);
+        if !gone {
+            leftover = tids().difference(&before).count();
+        }
+    }
+    Outcome { completed, stuck: stuck.join(", "), panics, leftover_threads: leftover }
+}
+
+/// the scenario as a Coq term for c08_check (see model/Locks.v part 4)
+fn scenario_coq(sc: &Scenario, seed: u64, completed: bool) -> String {
+    let nu = sc.threads.len() + 1; // model thread 0 = the main thread
+    let m_of = |_b: usize| 0usize;
+    // one pool thread per bar to begin with: the linearised footprints of disable_steady_tick() and
+    // enable_steady_tick() both contain the Spawn (`interval.map(|i| Ticker::new(..))`), it needs a target
+    let mut workers: Vec<(usize, usize)> = (0..sc.nbars).map(|b| (b, m_of(b))).collect();
+    let mut cur: Vec<Option<usize>> = (0..sc.nbars).map(|b| Some(nu + b)).collect();
+    let call = |name: &str, b: usize, k: usize| format!("(\"{name}\"%string, {b}, {}, {k})", m_of(b));
+    let mut main_prog = vec![];
+    for (b, iv) in sc.initial.iter().enumerate() {
+        if iv.is_some() {
+            let k = nu + workers.len();
+            workers.push((b, m_of(b)));
+            cur[b] = Some(k);
+            main_prog.push(call("ProgressBar::enable_steady_tick", b, k));
+        }
+    }
+    let mut users = vec![];
+    for ops in &sc.threads {
+        let mut prog = vec![];
+        let mut have = vec![true; sc.nbars];
+        for op in ops {
+            let b = op.bar().unwrap_or(0);
+            if op.bar().is_some() && !have[b] {
+                continue;
+            }
+            if let Op::DropHandle(b) = op {
+                have[*b] = false;
+            }
+            let k = match op {
+                Op::Enable(..) => {
+                    let k = nu + workers.len();
+                    workers.push((b, m_of(b)));
+                    cur[b] = Some(k);
+                    k
+                }
+                _ => cur[b].unwrap_or(nu),
+            };
+            if matches!(op, Op::MpRemove(_) | Op::MpAdd(_)) && sc.target != Target::Multi {
+                continue;
+            }
+            if let Op::MpAdd(_) = op {
+                prog.push(call("ProgressBar::clone", b, k));
+            }
+            for name in op.calls() {
+                prog.push(call(name, b, k));
+            }
+            if let Op::MpAdd(_) = op {
+                prog.push(call("ProgressBar::drop", b, k));
+            }
+        }
+        for b in 0..sc.nbars {
+            if have[b] {
+                prog.push(call("ProgressBar::drop", b, cur[b].unwrap_or(nu)));
+            }
+        }
+        users.push(prog);
+    }
+    for b in 0..sc.nbars {
+        main_prog.push(call("ProgressBar::drop", b, cur[b].unwrap_or(nu)));
+    }
+    main_prog.push(call("MultiProgress::drop", 0, nu));
+    let mut all = vec![clist(main_prog)];
+    all.extend(users.into_iter().map(clist));
+    format!(
+        "CScenario {} {} 2 {} {}",
+        clist(all),
+        clist(workers.iter().map(|(b, m)| format!("({b}, {m})"))),
+        seed % 1000,
+        cbool(completed)
+    )
+}
+
+// ------------------------------------------------------------------ ticker lifecycle
+#[derive(Clone, Copy, Debug, PartialEq)]
+enum Ev {
+    Disable,
+    Replace,
+    DropLast,
+    Finish(u8),
+}
+
+fn ev_coq(e: Ev) -> &'static str {
+    match e {
+        Ev::Disable => "EvDisable",
+        Ev::Replace => "EvReplace",
+        Ev::DropLast => "EvDropLast",
+        Ev::Finish(_) => "EvFinish",
+    }
+}
+
+const WINDOW_MS: u64 = 400;
+
+/// enable a ticker with `interval_ms`, let it park in its wait, fire the event, watch its thread
+fn lifecycle(s: &mut Session, ev: Ev, interval_ms: u64, target: Target) {
+    let desc = format!("lifecycle event={ev:?} interval_ms={interval_ms} target={target:?}");
+    let draws = std::sync::Arc::new(std::sync::atomic::AtomicU64::new(0));
+    let term = InMemoryTerm::new(8, 60);
+    let mp = match target {
+        Target::Multi => Some(MultiProgress::with_draw_target(ProgressDrawTarget::term_like(Box::new(term.clone())))),
+        _ => None,
+    };
+    let t = match target {
+        Target::Mem => ProgressDrawTarget::term_like(Box::new(term.clone())),
+        _ => ProgressDrawTarget::hidden(),
+    };
+    let pb = ProgressBar::with_draw_target(Some(10), t).with_style(style(draws.clone()));
+    let pb = match &mp {
+        Some(m) => m.add(pb),
+        None => pb,
+    };
+    let before = tids();
+    pb.enable_steady_tick(Duration::from_millis(interval_ms));
+    let mut ticker: Option<u64> = None;
+    wait_until(1000, || {
+        ticker = tids().difference(&before).next().copied();
+        ticker.is_some()
+    });
+    let Some(ticker) = ticker else {
+        s.fail("ticker-thread-not-started", "no new thread within 1 s of enable_steady_tick".into(), desc);
+        return;
+    };
+    // let it tick once and park in wait_timeout_while
+    std::thread::sleep(Duration::from_millis(30));
+    let weak = pb.downgrade();
+    let clone = pb.clone();
+    let pb2 = pb.clone();
+    let t0 = Instant::now();
+    let done = watchdog(move || match ev {
+        Ev::Disable => pb2.disable_steady_tick(),
+        Ev::Replace => pb2.enable_steady_tick(Duration::from_millis(HOUR_MS)),
+        Ev::DropLast => {}
+        Ev::Finish(0) => pb2.finish(),
+        Ev::Finish(1) => pb2.finish_with_message("m"),
+        Ev::Finish(2) => pb2.finish_and_clear(),
+        Ev::Finish(3) => pb2.abandon(),
+        Ev::Finish(4) => pb2.abandon_with_message("m"),
+        Ev::Finish(_) => pb2.finish_using_style(),
+    });
+    if done.is_none() {
+        s.fail("deadlock", format!("{ev:?} did not return within the watchdog time"), desc);
+        std::mem::forget(pb);
+        std::mem::forget(clone);
+        return;
+    }
+    let mut call_ms = t0.elapsed().as_millis() as u64;
+    let mut keep: Vec<ProgressBar> = vec![pb, clone];
+    if ev == Ev::DropLast {
+        // a clone is dropped first (the ticker must survive that), then the last handle
+        keep.pop();
+        let alive_after_clone_drop = tids().contains(&ticker);
+        if !alive_after_clone_drop {
+            s.fail(
+                "ticker-stopped-by-clone-drop",
+                "dropping a clone (not the last handle) ended the ticker thread".into(),
+                desc.clone(),
+            );
+        }
+        let last = keep.pop().unwrap();
+        let t1 = Instant::now();
+        if watchdog(move || drop(last)).is_none() {
+            s.fail("deadlock", "drop of the last handle did not return".into(), desc);
+            return;
+        }
+        call_ms = t1.elapsed().as_millis() as u64;
+        if weak.upgrade().is_some() {
+            s.fail("bar-state-leaked", "WeakProgressBar::upgrade succeeds after the last handle was dropped".into(), desc.clone());
+        }
+    }
+    let exited = wait_until(WINDOW_MS, || !tids().contains(&ticker));
+    let class = match ev {
+        Ev::Finish(_) => "ticker-parked-after-finish",
+        Ev::Disable => "ticker-alive-after-disable",
+        Ev::Replace => "ticker-alive-after-replace",
+        Ev::DropLast => "ticker-alive-after-last-drop",
+    };
+    if !exited {
+        s.fail(
+            class,
+            format!("ticker thread (tid {ticker}) still alive {WINDOW_MS} ms after {ev:?} with a {interval_ms} ms interval"),
+            desc.clone(),
+        );
+    }
+    if call_ms > WINDOW_MS {
+        s.fail(
+            "ticker-join-not-prompt",
+            format!("{ev:?} took {call_ms} ms with a {interval_ms} ms interval (join waits for the ticker)"),
+            desc.clone(),
+        );
+    }
+    s.count(&format!("life:{}", ev_coq(ev)));
+    s.count(&format!("interval_ms:{interval_ms}"));
+    s.case(
+        format!("CLife {} {}%N {}%N {}", ev_coq(ev), interval_ms, WINDOW_MS, cbool(exited)),
+        desc,
+        true,
+    );
+    // clean up (joins what is left; prompt by the clauses just checked)
+    let _ = watchdog(move || {
+        drop(keep);
+        drop(mp);
+    });
+}
+
+fn spinner_index(term: &InMemoryTerm) -> Option<u64> {
+    let c = term.contents();
+    let w = c.split_whitespace().next()?;
+    w.parse::<u64>().ok()
+}
+
+/// manual tick() with / without a ticker installed; the ticker redraws on its own
+fn manual_tick(s: &mut Session, installed: bool, n: u64) {
+    let desc = format!("manual_tick installed={installed} n={n}");
+    let draws = std::sync::Arc::new(std::sync::atomic::AtomicU64::new(0));
+    let term = InMemoryTerm::new(4, 60);
+    let pb = ProgressBar::with_draw_target(Some(10), ProgressDrawTarget::term_like(Box::new(term.clone())))
+        .with_style(style(draws.clone()));
+    if installed {
+        pb.enable_steady_tick(Duration::from_millis(HOUR_MS));
+        // the ticker ticks once right away, then waits for an hour
+        if !wait_until(1000, || spinner_index(&term).is_some()) {
+            s.fail("ticker-does-not-redraw", "no frame within 1 s of enable_steady_tick(1 h)".into(), desc);
+            return;
+        }
+        std::thread::sleep(Duration::from_millis(20));
+    } else {
+        pb.tick();
+    }
+    pb.force_draw();
+    let before = spinner_index(&term);
+    for _ in 0..n {
+        pb.tick();
+    }
+    pb.force_draw();
+    let after = spinner_index(&term);
+    let (Some(before), Some(after)) = (before, after) else {
+        s.fail("no-frame", format!("no spinner on the screen: {:?}", term.contents()), desc);
+        return;
+    };
+    // tick strings cycle with period 60; n < 60 - before in every case generated here
+    let want = if installed { before } else { before + n };
+    if after != want {
+        s.fail(
+            if installed { "manual-tick-advances-with-ticker" } else { "manual-tick-lost" },
+            format!("spinner index {before} -> {after} after {n} tick() calls, expected {want}"),
+            desc.clone(),
+        );
+    }
+    s.count(if installed { "manual_tick:installed" } else { "manual_tick:free" });
+    s.case(format!("CManualTick {} {} {}%N {}%N", cbool(installed), n, before, after), desc, true);
+}
+
+/// a steady ticker with a short interval redraws the bar without any manual tick
+fn redraws(s: &mut Session, interval_ms: u64, multi: bool) {
+    let desc = format!("redraws interval_ms={interval_ms} multi={multi}");
+    let draws = std::sync::Arc::new(std::sync::atomic::AtomicU64::new(0));
+    let term = InMemoryTerm::new(4, 60);
+    let mp = multi.then(|| MultiProgress::with_draw_target(ProgressDrawTarget::term_like(Box::new(term.clone()))));
+    let pb = match &mp {
+        Some(m) => m.add(ProgressBar::with_draw_target(Some(10), ProgressDrawTarget::hidden())),
+        None => ProgressBar::with_draw_target(Some(10), ProgressDrawTarget::term_like(Box::new(term.clone()))),
+    }
+    .with_style(style(draws.clone()));
+    pb.enable_steady_tick(Duration::from_millis(interval_ms));
+    let mut seen = BTreeSet::new();
+    let ok = wait_until(3000, || {
+        if let Some(i) = spinner_index(&term) {
+            seen.insert(i);
+        }
+        seen.len() >= 4
+    });
+    if !ok {
+        s.fail(
+            "ticker-does-not-redraw",
+            format!("only {} distinct spinner frames in 3 s with a {interval_ms} ms interval (callback draws: {})",
+                    seen.len(), draws.load(std::sync::atomic::Ordering::SeqCst)),
+            desc.clone(),
+        );
+    }
+    s.count("redraws");
+    s.oracle_only(desc, true);
+    let _ = watchdog(move || {
+        drop(pb);
+        drop(mp);
+    });
+}
+
+/// the three parties of D9 at full speed: update() / enable+disable / the ticker
+fn d9_stress(s: &mut Session, rounds: u64, interval_ms: u64) {
+    let desc = format!("d9_stress rounds={rounds} interval_ms={interval_ms}");
+    let ok = watchdog(move || {
+        let pb = ProgressBar::with_draw_target(Some(10), ProgressDrawTarget::hidden());
+        pb.enable_steady_tick(Duration::from_millis(interval_ms));
+        let a = pb.clone();
+        let b = pb.clone();
+        let c = pb.clone();
+        let ha = std::thread::spawn(move || {
+            for _ in 0..rounds * 20 {
+                a.update(|st| st.set_pos(st.pos().wrapping_add(1)));
+            }
+        });
+        let hb = std::thread::spawn(move || {
+            for i in 0..rounds {
+                if i % 2 == 0 {
+                    b.disable_steady_tick()
+                } else {
+                    b.enable_steady_tick(Duration::from_millis(interval_ms))
+                }
+            }
+        });
+        let hc = std::thread::spawn(move || {
+            for i in 0..rounds * 5 {
+                c.inc(1);
+                c.tick();
+                if i % 50 == 0 {
+                    c.finish();
+                    c.reset();
+                }
+            }
+        });
+        ha.join().unwrap();
+        hb.join().unwrap();
+        hc.join().unwrap();
+        drop(pb);
+    });
+    if ok.is_none() {
+        s.fail("deadlock", "update / enable+disable / ticker stress did not finish within the watchdog time".into(), desc.clone());
+    }
+    s.count("d9_stress");
+    s.oracle_only(desc, true);
+}
+
+fn scenario_case(s: &mut Session, sc: &Scenario, seed: u64) {
+    let desc = format!("scenario {}", sc.text());
+    let out = run_scenario(sc);
+    if !out.completed {
+        s.fail(
+            "deadlock",
+            format!("not finished {} s after start: {} (threads are left blocked)", WATCHDOG.as_secs(), out.stuck),
+            desc.clone(),
+        );
+    }
+    for p in &out.panics {
+        s.fail("panic", p.clone(), desc.clone());
+    }
+    if out.leftover_threads > 0 {
+        s.fail(
+            "ticker-thread-leaked",
+            format!("{} thread(s) still alive 2 s after every handle was dropped", out.leftover_threads),
+            desc.clone(),
+        );
+    }
+    for t in &sc.threads {
+        for o in t {
+            let k = o.text();
+            s.count(&format!("op:{}", k.split('(').next().unwrap()));
+        }
+    }
+    s.count(&format!("target:{:?}", sc.target));
+    s.count(&format!("threads:{}", sc.threads.len()));
+    let with_ticker = sc.initial.iter().any(|i| i.is_some())
+        || sc.threads.iter().flatten().any(|o| matches!(o, Op::Enable(..)));
+    s.count(if with_ticker { "scenario:with_ticker" } else { "scenario:no_ticker" });
+    let nontrivial = sc.threads.iter().map(|t| t.len()).sum::<usize>() >= 3;
+    s.case(scenario_coq(sc, seed, out.completed), desc, nontrivial);
+}
+
 fn main() {
-    let base = nthreads();
-    let pb = ProgressBar::with_draw_target(Some(10), ProgressDrawTarget::hidden());
-    pb.enable_steady_tick(Duration::from_secs(3600));
-    std::thread::sleep(Duration::from_millis(100));
-    println!("after enable: +{}", nthreads() - base);
-    pb.finish();
-    std::thread::sleep(Duration::from_millis(300));
-    println!("300ms after finish (1h interval): +{}", nthreads() - base);
-    let t = std::time::Instant::now();
-    pb.disable_steady_tick();
-    println!("disable took {:?}: +{}", t.elapsed(), nthreads() - base);
-    let pb = ProgressBar::with_draw_target(Some(10), ProgressDrawTarget::hidden());
-    pb.enable_steady_tick(Duration::from_millis(20));
-    std::thread::sleep(Duration::from_millis(50));
-    pb.finish();
-    std::thread::sleep(Duration::from_millis(100));
-    println!("100ms after finish (20ms interval): +{}", nthreads() - base);
-    pb.reset();
-    pb.tick();
-    let mut tk = 0; pb.update(|s| { let _ = s; }); 
-    let _ = tk; tk = 1; let _ = tk;
-    let pb2 = ProgressBar::with_draw_target(Some(10), ProgressDrawTarget::hidden());
-    pb2.enable_steady_tick(Duration::from_secs(3600));
-    let w = pb2.downgrade();
-    let t = std::time::Instant::now();
-    drop(pb2);
-    println!("drop took {:?}: +{} upgrade none={}", t.elapsed(), nthreads() - base, w.upgrade().is_none());
+    let a = args();
+    let header = "From IndModel Require Import Base Locks.\nFrom IndGen Require Import LockFootprints.\n\
+                  From Coq Require Import String.\nOpen Scope nat_scope.\n\
+                  Definition c08_chk := c08_check all_footprints ticker_body.\n";
+    let mut s = Session::new(&a, "C08", header, "c08case", "c08_chk");
+    s.rule = "real threads through the public API under a 6 s watchdog: 2-3 threads x 1-5 calls (inc, set_position, tick, update, \
+              set_message, println, suspend, finish*/abandon*, reset, enable/disable_steady_tick at 1 ms..1 h, clone+drop, drop, \
+              is_hidden, force_draw, set_draw_target; MultiProgress println/clear/suspend/remove/add/is_hidden) on 1-3 shared bars \
+              (hidden / InMemoryTerm / MultiProgress members), with and without initial tickers; each scenario is also replayed on \
+              the lock model built from the generated footprint table; ticker lifecycle cases: event x interval x target; manual \
+              tick cases; non-trivial = at least 3 calls; distinct = distinct scenario text"
+        .into();
+    indicatif::verif_clock::set_auto_step_ns(1_000_000);
+    // ---- ticker lifecycle first (thread observation is process wide)
+    let events = [
+        Ev::Disable,
+        Ev::Replace,
+        Ev::DropLast,
+        Ev::Finish(0),
+        Ev::Finish(1),
+        Ev::Finish(2),
+        Ev::Finish(3),
+        Ev::Finish(4),
+        Ev::Finish(5),
+    ];
+    for target in [Target::Hidden, Target::Mem, Target::Multi] {
+        for ev in events {
+            let ivs: &[u64] = if target == Target::Hidden || a.thorough || a.extended {
+                &[1, 20, 1000, HOUR_MS]
+            } else {
+                &[20, HOUR_MS]
+            };
+            for &iv in ivs {
+                lifecycle(&mut s, ev, iv, target);
+            }
+        }
+    }
+    for installed in [true, false] {
+        for n in [0u64, 1, 2, 7, 20] {
+            manual_tick(&mut s, installed, n);
+        }
+    }
+    for (iv, multi) in [(1u64, false), (5, false), (2, true), (20, true)] {
+        redraws(&mut s, iv, multi);
+    }
+    // ---- the D9 parties at full speed
+    let rounds = if a.thorough || a.extended { 2000 } else { 300 };
+    d9_stress(&mut s, rounds, 1);
+    d9_stress(&mut s, rounds / 4, HOUR_MS);
+    // ---- corpus, then random scenarios
+    let corpus = vec![
+        // the three-party deadlock of D9 (update / disable / ticker), as short sequences
+        Scenario {
+            target: Target::Hidden,
+            nbars: 1,
+            initial: vec![Some(1)],
+            threads: vec![
+                vec![Op::Update(0), Op::Update(0), Op::Update(0)],
+                vec![Op::Disable(0), Op::Enable(0, 1), Op::Disable(0)],
+            ],
+        },
+        // last handle dropped by a worker while the ticker runs; multi member
+        Scenario {
+            target: Target::Multi,
+            nbars: 2,
+            initial: vec![Some(1), Some(HOUR_MS)],
+            threads: vec![
+                vec![Op::Println(0), Op::MpRemove(1), Op::DropHandle(0)],
+                vec![Op::MpSuspend, Op::Finish(1, 2), Op::MpAdd(1)],
+                vec![Op::Enable(0, 2), Op::Suspend(1), Op::MpClear],
+            ],
+        },
+        Scenario {
+            target: Target::Mem,
+            nbars: 1,
+            initial: vec![None],
+            threads: vec![vec![Op::Enable(0, HOUR_MS), Op::Finish(0, 0)], vec![Op::Enable(0, 1), Op::Reset(0)]],
+        },
+    ];
+    let mut r = Rng::new(a.seed);
+    for sc in &corpus {
+        scenario_case(&mut s, sc, r.next());
+    }
+    let n = if a.thorough { 6000 } else if a.extended { 4000 } else { 600 };
+    for _ in 0..n {
+        let sc = gen_scenario(&mut r);
+        let seed = r.next();
+        scenario_case(&mut s, &sc, seed);
+        if s.failures.iter().filter(|f| f.class == "deadlock").count() >= 5 {
+            s.notes.push("stopped after 5 deadlocked scenarios (blocked threads are leaked)".into());
+            break;
+        }
+    }
+    indicatif::verif_clock::set_auto_step_ns(0);
+    s.finish();
 }
